@@ -122,6 +122,7 @@ func prop(c udprun.Case) (o pbt.Outcome) {
 	o.Label("gapAcks>0=%v", gapAcks > 0)
 	o.Label("acks>0=%v", acks > 0)
 	o.Label("drops>0=%v", res.Drops > 0)
+	o.Label("rawClient=%v", c.Cfg.RawClient)
 	return
 }
 
